@@ -27,3 +27,33 @@ package bal_gslb
 //@   loop 1 invariant[count] 0 <= i && i <= N
 //@   loop 1 invariant[w_is_the_hash_minus_the_intervals_passed] value != nil ==> w == h - pwsum(subs, i)
 //@   loop 1 invariant[not_yet_found] 0 <= w && w < bal.totalWeight - pwsum(subs, i)
+
+// ---- C08 / C03: retry budget, cross-sub-cluster choice ----
+
+//@ spec crossOK(s *SubCluster, ex *SubCluster) bool := s != ex && s.weight >= 0 && s.sType != TypeGslbBlackhole
+//@ spec avcount(subs SubClusterList, ex *SubCluster, n int) int := n <= 0 ? 0 : avcount(subs, ex, n-1) + (crossOK(subs[n-1], ex) ? 1 : 0)
+
+//@ func (*BalanceGslb).randomSelectExclude
+//@   props C08,C03
+//@   nopanic
+//@   requires bal != nil && wfSubs(bal.subClusters)
+//@   modifies nothing
+//@   let subs := bal.subClusters
+//@   let N := len(bal.subClusters)
+//@   ensures[a_cross_choice_is_another_sub_cluster_that_is_not_the_blackhole] result1 == nil ==> (exists m int :: 0 <= m && m < N && result0 == subs[m] && result0 != excludeCluster && subs[m].weight >= 0 && subs[m].sType != TypeGslbBlackhole)
+//@   ensures[error_only_if_there_is_no_other_usable_sub_cluster] result1 != nil ==> (forall k int :: 0 <= k && k < N ==> !crossOK(subs[k], excludeCluster))
+//@   loop 1 invariant[count] 0 <= i && i <= N && available == avcount(subs, excludeCluster, i) && 0 <= available && available <= i
+//@   loop 1 invariant[none_so_far_means_none] available == 0 ==> (forall k int :: 0 <= k && k < i ==> !crossOK(subs[k], excludeCluster))
+//@   loop 2 invariant[the_nth_usable_one_is_still_ahead] 0 <= i && i <= N && 0 <= n && n < avcount(subs, excludeCluster, N) - avcount(subs, excludeCluster, i)
+
+//@ func (*BalanceGslb).Balance
+//@   props C08
+//@   requires bal != nil && req != nil
+//@   frame getHashKey pure
+//@   assume[configured_retry_limits_are_small_numbers] at "req.RetryTime > (bal.retryMax + bal.crossRetry)" :: -1000000000 <= bal.retryMax && bal.retryMax <= 1000000000 && -1000000000 <= bal.crossRetry && bal.crossRetry <= 1000000000
+//@   assume[the_balancer_summary_is_consistent] at "bal.subClusterBalance(hashKey)" :: wfGslb(bal)
+//@   frame balance keeps req.RetryTime, bal.retryMax, bal.crossRetry, bal.subClusters, bal.subClusters[..], any SubCluster.weight, any SubCluster.sType
+//@   note building the hash key is assumed to write nothing; choosing a backend inside a sub-cluster is assumed to leave the request's retry counter, the retry limits and the sub-cluster list alone
+//@   modifies *
+//@   ensures[no_backend_once_the_retry_budget_is_spent] result1 == nil ==> old(req.RetryTime) <= old(bal.retryMax) + old(bal.crossRetry)
+//@   ensures[the_retry_counter_never_goes_back] req.RetryTime >= old(req.RetryTime)
